@@ -196,7 +196,7 @@ package datafile
 //@   modifies nothing
 
 //@ func datafile.DecodeLogRecordValue
-//@   props C11 C12 C15
+//@   props C11 C12 C15 C01
 //@   requires [sealed] isRec(content(data), off(data), len(data))
 //@   ensures [len]     len(result) == recV(content(data), off(data), len(data))
 //@   ensures [private-copy] len(result) > 0 ==> fresh(result)
